@@ -178,3 +178,20 @@ Section HendrixP.
     pose proof (fsum_shift_add pb sb (D - sb)) as S. replace (sb + (D - sb))%nat with D in S by lia. lra.
   Qed.
 End HendrixP.
+
+(* the case structure of hx_prob (no hypotheses on the tables) *)
+Lemma hx_prob_cases (pa pb : nat -> Q) bin D sa sb ia ib :
+  ((ia < sa)%nat -> (ib < sb)%nat -> hx_prob pa pb bin D sa sb ia ib == pa ia * pb ib) /\
+  ((ib < sb)%nat -> hx_prob pa pb bin D sa sb sa ib == (1 - fsum pa sa) * pb ib) /\
+  ((ia < sa)%nat -> hx_prob pa pb bin D sa sb ia sb == hx_pz pa pb bin D sb ia).
+Proof.
+  unfold hx_prob. repeat split.
+  - intros H1 H2. assert (Nat.ltb ia sa = true) as -> by (apply Nat.ltb_lt; lia). assert (Nat.ltb ib sb = true) as -> by (apply Nat.ltb_lt; lia).
+    assert (Nat.eqb ia sa = false) as -> by (apply Nat.eqb_neq; lia). assert (Nat.eqb ib sb = false) as -> by (apply Nat.eqb_neq; lia).
+    simpl. ring.
+  - intros H2. assert (Nat.ltb sa sa = false) as -> by (apply Nat.ltb_ge; lia). rewrite Nat.eqb_refl.
+    assert (Nat.ltb ib sb = true) as -> by (apply Nat.ltb_lt; lia). assert (Nat.eqb ib sb = false) as -> by (apply Nat.eqb_neq; lia).
+    simpl. ring.
+  - intros H1. assert (Nat.ltb ia sa = true) as -> by (apply Nat.ltb_lt; lia). assert (Nat.eqb ia sa = false) as -> by (apply Nat.eqb_neq; lia).
+    assert (Nat.ltb sb sb = false) as -> by (apply Nat.ltb_ge; lia). rewrite Nat.eqb_refl. simpl. ring.
+Qed.
